@@ -66,8 +66,10 @@ func (r *Runner) Do(op string, args []string, tag string, nontrivial bool, desc 
 
 func (r *Runner) DoMode(op string, args []string, tag string, nontrivial bool, desc string, mode Mode) {
 	t0 := time.Now()
+	mark := retainSeq
 	ans, direct := eval(op, args)
 	noteEarly(op, args, ans)
+	r.askAgain(op, args, ans, tag, mark)
 	r.noteForReuse(op, args, ans, tag, time.Since(t0))
 	if dumpTag != "" && strings.Contains(tag, dumpTag) { // debugging aid: VERIF_DUMP_TAG=<substring of a tag>
 		fmt.Fprintf(os.Stderr, "dump %s %s -> %s %v\n", op, truncate(strings.Join(args, " "), 200), truncate(ans, 400), direct)
